@@ -21,8 +21,11 @@ def main():
         subprocess.run(["git", "-C", WT, "apply"], input=d, text=True)
         sh("git", "-C", WT, "-c", "user.name=x", "-c", "user.email=a@b", "commit", "-qam", "wip")
     shutil.rmtree(OUT, ignore_errors=True); os.makedirs(OUT)
-    for n in ("standins", "known_findings.json"):
-        os.symlink(os.path.join(V, n), os.path.join(OUT, n))
+    # snapshot of everything the run reads, so that the corpus can run while /verif is being edited
+    shutil.copytree(os.path.join(V, "standins"), os.path.join(OUT, "standins"))
+    shutil.copy(os.path.join(V, "known_findings.json"), os.path.join(OUT, "known_findings.json"))
+    shutil.copytree(os.path.join(V, "foxvc/externs"), os.path.join(OUT, "externs"))
+    shutil.copy(os.path.join(V, "bin/foxvc"), os.path.join(OUT, "foxvc"))
     results = {}
     resfile = os.path.join(V, "selftest", "RESULTS.json")
     if pats and os.path.exists(resfile):
@@ -43,7 +46,7 @@ def main():
         det, first, secs = [], "", 0
         for p in props:
             t = time.time()
-            r = sh(os.path.join(V, "bin/foxvc"), "check", "-repo", WT, "-prop", p, "-tier", "quick", "-fast", "-out", OUT, "-externs", os.path.join(V, "foxvc/externs"))
+            r = sh(os.path.join(OUT, "foxvc"), "check", "-repo", WT, "-prop", p, "-tier", "quick", "-fast", "-out", OUT, "-externs", os.path.join(OUT, "externs"))
             secs += time.time() - t
             failed = [l for l in r.stdout.splitlines() if l.startswith("FAILED")]
             viol = [l for l in r.stdout.splitlines() if l.startswith("VIOLATION")]
